@@ -165,8 +165,12 @@ def run(ctx):
         elif rv[0] == "dict" and rv[3] in (("items", NUM),):
             val = rv[2]
             den1 = ("index", DEN, 1)
-            ok = val[0] == "binop" and val[1] in ("Mult", "Div") and contains(
-                val, lambda t: t == den1)
+            coeff = ("val", NUM)
+            ok = (val[0] == "binop" and val[1] in ("Mult", "Div") and contains(
+                val, lambda t: t == den1)) or (
+                # one fraction  coefficient / denominator
+                val[0] == "call" and val[1].split(".")[-1] in (
+                    "Quotient", "quotient") and val[2] == (coeff, den1))
     ctx.ob("K/CoefficientCollector/map_quotient/scales-all", ok, where(mem),
            "every numerator coefficient is divided by the constant denominator"
            if ok else "map_quotient does not scale every numerator coefficient by "
